@@ -117,6 +117,59 @@ theorem segment_change_pair_always (cfg mac resolve now ing h pm raw eg)
   have := (pairCheck_none_iff _ _ _ _).mp hc
   simpa [hs] using this
 
+/-- **multi-router ASes.** `d.linkTypes[0]` is never configured (no interface has id 0), so a
+packet that arrives from inside the AS — over the internal link or over a *sibling* link — is
+never taken across a segment change by this router, whatever the link types: the cross-over (and
+its link-type check) belongs to the router that received the packet from the other AS. In
+particular no parent→parent (or other) valley can be forwarded by handing a packet over a
+sibling link before the segment change. -/
+theorem inside_never_crosses (cfg mac resolve now ing h pm raw eg)
+    (hf : (process cfg mac resolve now ing h pm raw).1 = .forward eg) (hint : ing.ifID = 0)
+    (h0 : cfg.ltype 0 = .unset) :
+    ∃ inf peering, getInfo h raw pm.currINF = some inf ∧ determinePeer pm inf = some peering ∧
+      segChange h pm peering = false := by
+  obtain ⟨inf, peering, hi, hp, hc⟩ := segment_change_pair_always cfg mac resolve now ing h pm raw eg hf
+  refine ⟨inf, peering, hi, hp, ?_⟩
+  cases hs : segChange h pm peering
+  · rfl
+  · have := hc hs
+    rw [hint, h0] at this
+    simp [ChangePair] at this
+
+/-- the pair of AS-level links a forwarded packet traverses at a segment change is admissible,
+over whichever local link it arrived: the link by which it entered the AS is the travel-direction
+ingress interface of its current hop (for an external ingress that *is* the receiving interface;
+from inside the AS no segment change is performed at all) -/
+theorem segment_change_entry_pair (cfg mac resolve now ing h pm raw eg)
+    (hf : (process cfg mac resolve now ing h pm raw).1 = .forward eg) (h0 : cfg.ltype 0 = .unset) :
+    ∃ hop inf peering, getHop h raw pm.currHF = some hop ∧ getInfo h raw pm.currINF = some inf ∧
+      determinePeer pm inf = some peering ∧
+      (segChange h pm peering = true →
+        ChangePair (cfg.ltype (travelIn inf hop)) (cfg.ltype eg)) := by
+  have hacc : (process cfg mac resolve now ing h pm raw).1.accepting = true := by rw [hf]; rfl
+  obtain ⟨s0, s1, p⟩ := process_accepting_inv hacc
+  have a := stParse_ok p.parse
+  have b := stSegID_ok p.segid
+  have c := stValidate1_ok p.val
+  obtain ⟨inf, peering, hi, hp, hc⟩ := segment_change_pair_always cfg mac resolve now ing h pm raw eg hf
+  have e1 : inf = s0.inf := by have := a.inf; rw [hi] at this; cases this; rfl
+  subst e1
+  have e2 : peering = s0.peering := by have := a.peer; rw [hp] at this; cases this; rfl
+  subst e2
+  refine ⟨s0.hop, s0.inf, s0.peering, a.hop, hi, hp, fun hs => ?_⟩
+  have hpair := hc hs
+  by_cases hint : ing.ifID = 0
+  · rw [hint, h0] at hpair
+    simp [ChangePair] at hpair
+  · have hin := c.2.2.1 hint
+    have ht : travelIn s1.inf s1.hop = travelIn s0.inf s0.hop := by
+      rw [b.inf, b.hop]
+      split
+      · rfl
+      · rfl
+    rw [ht] at hin
+    rw [← hin]; exact hpair
+
 /-- forwarding always goes to a configured link that is up -/
 theorem forward_link_up (cfg mac resolve now ing h pm raw eg)
     (hf : (process cfg mac resolve now ing h pm raw).1 = .forward eg) :
